@@ -290,3 +290,165 @@ impl<T> IntoIterator for HashSet<T> {
     self.items.into_iter()
   }
 }
+
+// ---------------------------------------------------------------------------
+// BinaryHeap model (used only by the executor harnesses of query/wand.rs).
+// std's BinaryHeap sifts elements to positions that depend on the (symbolic)
+// keys, so every later access is a symbolic-index access into a heap Vec; for
+// CBMC that does not terminate already with 3 elements (DESIGN 8.2).  The model
+// implements the same priority-queue contract (push / pop-maximum / peek-maximum
+// under `Ord`, len, iteration in unspecified order) over a fixed array of inline
+// slots with linear search.  Among equal maxima std makes no promise; the model
+// returns the one in the lowest slot.
+// ---------------------------------------------------------------------------
+
+pub const HEAP_CAP: usize = 3;
+
+pub struct BinaryHeap<T> {
+  slots: [Option<T>; HEAP_CAP],
+}
+
+impl<T: Ord> Default for BinaryHeap<T> {
+  fn default() -> Self {
+    Self::new()
+  }
+}
+
+impl<T: Ord> BinaryHeap<T> {
+  pub fn new() -> Self {
+    BinaryHeap {
+      slots: [const { None }; HEAP_CAP],
+    }
+  }
+
+  pub fn with_capacity(_n: usize) -> Self {
+    Self::new()
+  }
+
+  pub fn len(&self) -> usize {
+    let mut n = 0;
+    let mut i = 0;
+    while i < HEAP_CAP {
+      if self.slots[i].is_some() {
+        n += 1;
+      }
+      i += 1;
+    }
+    n
+  }
+
+  pub fn is_empty(&self) -> bool {
+    self.len() == 0
+  }
+
+  pub fn push(&mut self, item: T) {
+    let mut it = Some(item);
+    let mut i = 0;
+    while i < HEAP_CAP {
+      if it.is_some() && self.slots[i].is_none() {
+        // the slot is empty: overwrite without running drop glue for the old value
+        unsafe { std::ptr::write(&mut self.slots[i], it.take()) };
+      }
+      i += 1;
+    }
+    if it.is_some() {
+      // A harness that needs more than HEAP_CAP elements is outside what the model
+      // can show: the engine reports this message as INCONCLUSIVE, never as a verdict.
+      std::mem::forget(it);
+      panic!("VERIF-MODEL: BinaryHeap model capacity exceeded");
+    }
+  }
+
+  fn max_slot(&self) -> Option<usize> {
+    let mut best: Option<usize> = None;
+    let mut i = 0;
+    while i < HEAP_CAP {
+      if let Some(x) = &self.slots[i] {
+        best = match best {
+          None => Some(i),
+          Some(b) => match &self.slots[b] {
+            Some(y) if x.cmp(y) == std::cmp::Ordering::Greater => Some(i),
+            _ => Some(b),
+          },
+        };
+      }
+      i += 1;
+    }
+    best
+  }
+
+  pub fn peek(&self) -> Option<&T> {
+    match self.max_slot() {
+      Some(i) => self.slots[i].as_ref(),
+      None => None,
+    }
+  }
+
+  pub fn pop(&mut self) -> Option<T> {
+    match self.max_slot() {
+      Some(i) => self.slots[i].take(),
+      None => None,
+    }
+  }
+}
+
+pub struct HeapIntoIter<T> {
+  slots: [Option<T>; HEAP_CAP],
+  pos: usize,
+}
+
+impl<T> Iterator for HeapIntoIter<T> {
+  type Item = T;
+  fn next(&mut self) -> Option<T> {
+    while self.pos < HEAP_CAP {
+      let i = self.pos;
+      self.pos += 1;
+      if let Some(x) = self.slots[i].take() {
+        return Some(x);
+      }
+    }
+    None
+  }
+}
+
+impl<T> IntoIterator for BinaryHeap<T> {
+  type Item = T;
+  type IntoIter = HeapIntoIter<T>;
+  fn into_iter(self) -> HeapIntoIter<T> {
+    HeapIntoIter {
+      slots: self.slots,
+      pos: 0,
+    }
+  }
+}
+
+impl<T: Ord> FromIterator<T> for BinaryHeap<T> {
+  fn from_iter<I: IntoIterator<Item = T>>(it: I) -> Self {
+    let mut h = BinaryHeap::new();
+    for x in it {
+      h.push(x);
+    }
+    h
+  }
+}
+
+/// Stand-in for `<[T]>::sort_by` on the short result vector of `finalize_heap`
+/// (std's sort dispatches on the slice length; with a symbolic length CBMC explores
+/// the quicksort / driftsort recursion and does not terminate).  Stable exchange
+/// sort over at most HEAP_CAP elements: same contract (sorted by `f`, stable).
+pub fn sort_by<T, F: FnMut(&T, &T) -> std::cmp::Ordering>(v: &mut [T], mut f: F) {
+  if v.len() > HEAP_CAP {
+    panic!("VERIF-MODEL: sort model capacity exceeded");
+  }
+  let mut pass = 0;
+  while pass < HEAP_CAP {
+    let mut j = 0;
+    while j + 1 < HEAP_CAP {
+      if j + 1 < v.len() && f(&v[j], &v[j + 1]) == std::cmp::Ordering::Greater {
+        v.swap(j, j + 1);
+      }
+      j += 1;
+    }
+    pass += 1;
+  }
+}
